@@ -134,4 +134,126 @@ theorem failThrough_all (levels : List Level) (x : GoErr) (t : Nat) :
       simp
 
 
+/-! ### the step model: panics at any site, the state lock -/
+
+/-- neither blocked nor escaped -/
+def TState.good : TState → Prop
+  | .running => True
+  | .finished _ => True
+  | .blocked => False
+  | .escaped => False
+
+/-- the events from an arbitrary state (`runEvents` starts from `StepSt.init`) -/
+def runFrom (f : ExecFacts) (st : StepSt) (evs : List (Key × Act)) : StepSt := evs.foldl (stepEv f) st
+
+theorem runEvents_eq (f : ExecFacts) (evs : List (Key × Act)) : runEvents f evs = runFrom f .init evs := rfl
+
+theorem runFrom_append (f : ExecFacts) (st : StepSt) (a b : List (Key × Act)) :
+    runFrom f st (a ++ b) = runFrom f (runFrom f st a) b := by
+  simp [runFrom, List.foldl_append]
+
+theorem set_tasks_same (st : StepSt) (k : Key) (v : TState) : (st.set k v).tasks k = v := by
+  simp [StepSt.set]
+
+theorem set_tasks_other (st : StepSt) {k k' : Key} (v : TState) (h : k' ≠ k) :
+    (st.set k v).tasks k' = st.tasks k' := by
+  simp [StepSt.set, h]
+
+/-- a task that was handed back keeps its result, whatever happens afterwards (any facts) -/
+theorem stepEv_finished_stable (f : ExecFacts) (st : StepSt) (ev : Key × Act) (k : Key) (r : Option GoErr)
+    (h : st.tasks k = .finished r) : (stepEv f st ev).tasks k = .finished r := by
+  obtain ⟨k0, a⟩ := ev
+  unfold stepEv
+  cases hk : st.tasks k0 with
+  | running =>
+    have hne : k ≠ k0 := by intro he; rw [he, hk] at h; cases h
+    cases a with
+    | useState p =>
+      cases p with
+      | none => by_cases hl : st.leaked = true <;> simp [hl, StepSt.set, hne, h]
+      | some i => by_cases hl : st.leaked = true <;> simp [hl, StepSt.set, hne, h]
+    | panicBody i => simp [StepSt.set, hne, h]
+    | fail e => simp [StepSt.set, hne, h]
+    | done => simp [StepSt.set, hne, h]
+  | finished r' => simpa using h
+  | blocked => simpa using h
+  | escaped => simpa using h
+
+theorem runFrom_finished_stable (f : ExecFacts) (evs : List (Key × Act)) (st : StepSt) (k : Key) (r : Option GoErr)
+    (h : st.tasks k = .finished r) : (runFrom f st evs).tasks k = .finished r := by
+  induction evs generalizing st with
+  | nil => simpa [runFrom] using h
+  | cons ev rest ih =>
+    have := ih (stepEv f st ev) (stepEv_finished_stable f st ev k r h)
+    simpa [runFrom] using this
+
+/-- with the three facts `true`: the lock is never left behind, no task blocks, no panic escapes -/
+theorem stepEv_good (st : StepSt) (ev : Key × Act) (h1 : st.leaked = false) (h2 : ∀ k, (st.tasks k).good) :
+    (stepEv ⟨true, true, true⟩ st ev).leaked = false ∧ ∀ k, ((stepEv ⟨true, true, true⟩ st ev).tasks k).good := by
+  obtain ⟨k0, a⟩ := ev
+  unfold stepEv
+  cases hk : st.tasks k0 with
+  | running =>
+    cases a with
+    | useState p =>
+      cases p with
+      | none => simp [h1]; exact h2
+      | some i =>
+        simp only [h1, Bool.false_eq_true, if_false, Bool.not_true]
+        refine ⟨by simp, fun k => ?_⟩
+        by_cases hkk : k = k0
+        · subst hkk; simp [StepSt.set, afterPanic, TState.good]
+        · simpa [StepSt.set, hkk] using h2 k
+    | panicBody i =>
+      refine ⟨by simpa [StepSt.set] using h1, fun k => ?_⟩
+      by_cases hkk : k = k0
+      · subst hkk; simp [StepSt.set, afterPanic, TState.good]
+      · simpa [StepSt.set, hkk] using h2 k
+    | fail e =>
+      refine ⟨by simpa [StepSt.set] using h1, fun k => ?_⟩
+      by_cases hkk : k = k0
+      · subst hkk; simp [StepSt.set, TState.good]
+      · simpa [StepSt.set, hkk] using h2 k
+    | done =>
+      refine ⟨by simpa [StepSt.set] using h1, fun k => ?_⟩
+      by_cases hkk : k = k0
+      · subst hkk; simp [StepSt.set, TState.good]
+      · simpa [StepSt.set, hkk] using h2 k
+  | finished r' => exact ⟨h1, h2⟩
+  | blocked => exact ⟨h1, h2⟩
+  | escaped => exact ⟨h1, h2⟩
+
+theorem runFrom_good (evs : List (Key × Act)) (st : StepSt) (h1 : st.leaked = false) (h2 : ∀ k, (st.tasks k).good) :
+    (runFrom ⟨true, true, true⟩ st evs).leaked = false ∧ ∀ k, ((runFrom ⟨true, true, true⟩ st evs).tasks k).good := by
+  induction evs generalizing st with
+  | nil => exact ⟨h1, h2⟩
+  | cons ev rest ih =>
+    obtain ⟨g1, g2⟩ := stepEv_good st ev h1 h2
+    simpa [runFrom] using ih (stepEv ⟨true, true, true⟩ st ev) g1 g2
+
+theorem runEvents_good (evs : List (Key × Act)) :
+    (runEvents ⟨true, true, true⟩ evs).leaked = false ∧ ∀ k, ((runEvents ⟨true, true, true⟩ evs).tasks k).good :=
+  runFrom_good evs .init rfl (fun _ => trivial)
+
+/-- a running task that panics (inside a critical section on the state, or anywhere else in
+    its body) is handed back with the panic as its error -/
+theorem stepEv_panic (st : StepSt) (k : Key) (a : Act) (i : Nat) (hl : st.leaked = false)
+    (hr : st.tasks k = .running) (ha : a = .useState (some i) ∨ a = .panicBody i) :
+    (stepEv ⟨true, true, true⟩ st (k, a)).tasks k = .finished (some (.panicE i)) := by
+  rcases ha with rfl | rfl <;> simp [stepEv, hr, hl, StepSt.set, afterPanic]
+
+/-- with good task states the step result is `reported` -/
+theorem stepResult_reported_of_good (f : ExecFacts) (hu asIs : Bool) (order : List Key) (evs : List (Key × Act))
+    (h : ∀ k, ((runEvents f evs).tasks k).good) :
+    stepResult f hu asIs order evs = .reported (reportStep hu asIs (finishedOf (runEvents f evs) order)) := by
+  unfold stepResult
+  have hb : (order.any fun k => (runEvents f evs).tasks k == .blocked) = false := by
+    rw [List.any_eq_false]; intro k _ hk
+    have := h k; simp only [beq_iff_eq] at hk; rw [hk] at this; exact this
+  have he : (order.any fun k => (runEvents f evs).tasks k == .escaped) = false := by
+    rw [List.any_eq_false]; intro k _ hk
+    have := h k; simp only [beq_iff_eq] at hk; rw [hk] at this; exact this
+  simp [hb, he]
+
+
 end EinoV.C13
